@@ -186,3 +186,51 @@ Definition window_end (ints : list Z) (start : Z) (stop : option Z) : Z :=
   end.
 
 Definition all_nonneg (L : list Z) : bool := forallb (fun x => (0 <=? x)%Z) L.
+
+(* ========================================================================= *)
+(* 4. The meaning of a well-formed range string (the reading that             *)
+(*    parse_int_list must agree with, and that the complement is relative to) *)
+(*    for one-character delimiters d (between pieces) and rd (inside a        *)
+(*    range): pieces are numerals or numeral rd numeral (either order),       *)
+(*    spaces around the string and around numerals are ignored, empty pieces  *)
+(*    are skipped.  None = not well-formed in this strict sense (nothing      *)
+(*    claimed).                                                               *)
+(* ========================================================================= *)
+Definition is_sp (c : N) : bool := c =? c_sp.
+
+Definition read_numeral (s : text) : option Z :=
+  let t := strip_by is_sp s in
+  if negb (is_nil t) && forallb is_digit t then Some (Z.of_N (digits_val 0 t)) else None.
+
+Definition read_piece (rd : N) (p : text) : option (list Z) :=
+  if is_nil p then Some []
+  else match split1 rd p with
+       | [a] => option_map (fun v => [v]) (read_numeral a)
+       | [a; b] => match read_numeral a, read_numeral b with
+                   | Some x, Some y => Some (zrange (Z.min x y) (Z.max x y + 1))
+                   | _, _ => None
+                   end
+       | _ => None
+       end.
+
+Fixpoint read_pieces (rd : N) (ps : list text) : option (list Z) :=
+  match ps with
+  | [] => Some []
+  | p :: r => match read_piece rd p, read_pieces rd r with
+              | Some a, Some b => Some (a ++ b)
+              | _, _ => None
+              end
+  end.
+
+(* all integers the string denotes, ascending, repetitions kept *)
+Definition read_ranges (d rd : N) (s : text) : option (list Z) :=
+  option_map sortZ (read_pieces rd (split1 d (strip_by is_sp s))).
+
+(* ========================================================================= *)
+(* 5. gzip (RFC 1952): every member starts with ID1 ID2 CM = 1f 8b 08 and     *)
+(*    ends with CRC32 and ISIZE (length mod 2^32) of the uncompressed data,   *)
+(*    both little-endian                                                      *)
+(* ========================================================================= *)
+Definition gz_frame_ok (b : list N) (first3 last8 : list N) : bool :=
+  text_eqb first3 [31; 139; 8]
+  && text_eqb last8 (le32 (crc32 b) ++ le32 (len_N b mod 4294967296)).
